@@ -98,10 +98,13 @@ func (c *cStream) Close() {
 type scriptStream struct {
 	evs [][]any
 	r   *rec
+	// nc: the source never looks at its context (like a slice- or channel-backed stream): a Next with an
+	// expired context hands over the next scripted event all the same
+	nc bool
 }
 
 func (s *scriptStream) Next(ctx context.Context) (int, error) {
-	if ctx.Err() != nil {
+	if !s.nc && ctx.Err() != nil {
 		return 0, ctx.Err()
 	}
 	if len(s.evs) == 0 {
@@ -150,12 +153,12 @@ func streamSource(d map[string]any, r *rec) stream.Stream[int] {
 	switch d["k"].(string) {
 	case "chan":
 		return stream.Chan(closedChan(ints(d["l"])))
-	case "script":
+	case "script", "scriptnc":
 		evs := [][]any{}
 		for _, e := range d["evs"].([]any) {
 			evs = append(evs, e.([]any))
 		}
-		return &scriptStream{evs: evs, r: r}
+		return &scriptStream{evs: evs, r: r, nc: d["k"].(string) == "scriptnc"}
 	case "empty":
 		return stream.Empty[int]()
 	}
